@@ -1,6 +1,7 @@
 package rules
 
 import (
+	"fmt"
 	"go/token"
 	"go/types"
 
@@ -151,6 +152,7 @@ func c10invalid(c *Ctx, t *transport) {
 }
 
 func c10invalidAs(c *Ctx, t *transport, rule string) {
+	opcodePredicates(c, rule)
 	r := c.R
 	isControl, isData := c.fn("isControl"), c.fn("isData")
 	maxCtl := c.P.ConstInt("maxControlFramePayloadSize")
@@ -385,4 +387,62 @@ func c10deadline(c *Ctx, t *transport) {
 			"Conn.writeDeadline may only be assigned from the parameter of SetWriteDeadline")
 	}
 	r.Floor("C10.deadline", 5)
+}
+
+// opcodePredicates: the two predicates every write-side guard is phrased in are
+// what RFC 6455 says: isControl(t) exactly for close/ping/pong (8, 9, 10) and
+// isData(t) exactly for text/binary (1, 2), for every int in the evaluation
+// domain (-300..70000 step 1, plus values around 2^16, 2^31 and 2^32 that a
+// shift- or mask-based test would confuse with an opcode).
+func opcodePredicates(c *Ctx, rule string) {
+	want := map[string]map[int64]bool{
+		"isControl": {8: true, 9: true, 10: true},
+		"isData":    {1: true, 2: true},
+	}
+	var dom []int64
+	for v := int64(-300); v <= 70000; v++ {
+		dom = append(dom, v)
+	}
+	for _, b := range []int64{1 << 31, 1 << 32, 1 << 40, -(1 << 31), -(1 << 40)} {
+		for d := int64(-16); d <= 16; d++ {
+			dom = append(dom, b+d)
+		}
+	}
+	for _, name := range []string{"isControl", "isData"} {
+		fn := c.fn(name)
+		type pth struct{ p *core.Path }
+		var paths []*core.Path
+		c.explore(rule, fn, core.Opts{}, func(p *core.Path) {
+			if p.End == core.EndReturn {
+				cp := *p
+				cp.Lits = append([]core.Lit(nil), p.Lits...)
+				cp.Results = append([]*core.Term(nil), p.Results...)
+				paths = append(paths, &cp)
+			}
+		})
+		ok, why := true, name+" holds exactly for "+map[string]string{"isControl": "8, 9, 10", "isData": "1, 2"}[name]+" over the evaluation domain"
+		decidedAll := true
+		// paths are evaluated while their explorer state is gone: only literals and results (terms) are used
+		for _, v := range dom {
+			got, decided := false, false
+			for _, p := range paths {
+				if r, d := evalBoolResult(p, fn.Params[0], v); d {
+					got, decided = r, true
+					break
+				}
+			}
+			if !decided {
+				decidedAll = false
+				continue
+			}
+			if got != want[name][v] {
+				ok, why = false, fmt.Sprintf("%s(%d) is %v: message types outside the RFC's opcodes are classified as %s frames (a bad message type is then accepted, or a valid one refused)", name, v, got, map[string]string{"isControl": "control", "isData": "data"}[name])
+				break
+			}
+		}
+		if !decidedAll && ok {
+			ok, why = false, name+" cannot be evaluated over the domain (unrecognised form)"
+		}
+		c.R.Check(rule, name, "opcode-predicate-table", fn.Pos(), ok && len(paths) > 0, why)
+	}
 }
